@@ -67,6 +67,17 @@ theorem gen_contentLengthMethods_eq (m : Str) :
   by_cases h1 : m = str "POST" <;> by_cases h2 : m = str "PUT" <;> by_cases h3 : m = str "PATCH" <;>
     simp [h1, h2, h3]
 
+/-- SETTINGS_MAX_HEADER_LIST_SIZE: the receiver truncates only when a field does not fit the
+remaining budget (`size > remainSize`, `sizeLoop`), the Transport refuses only above the peer's
+limit (`clientRefuses`), and the server advertises `MaxHeaderBytes + 10*32`. -/
+theorem gen_headerListSize_eq :
+    Gen.C14.readMetaFrameSizeCmp = "> remainSize" ∧
+    Gen.C14.encodeHeadersSizeCmp = "> param.PeerMaxHeaderListSize" ∧
+    Gen.C14.perFieldOverhead = perFieldOverhead ∧ Gen.C14.typicalHeaders = typicalHeaders ∧
+    Gen.C14.adjustHTTP1MaxHeaderSizeSrc =
+      "func adjustHTTP1MaxHeaderSize(n int64) int64 { const perFieldOverhead = 32 const typicalHeaders = 10 return n + typicalHeaders*perFieldOverhead }" := by
+  refine ⟨rfl, rfl, rfl, rfl, rfl⟩
+
 theorem gen_strings_eq :
     str Gen.C14.defaultUserAgent = defaultUserAgent ∧ Gen.C14.trailerPrefix = "Trailer:" := by
   decide
